@@ -9,6 +9,9 @@ import traceback
 
 ROOT = os.path.dirname(os.path.dirname(os.path.abspath(__file__)))
 sys.path.insert(0, ROOT)
+# the tree under verification (default /repo); `import dynetx` in replays and bounded runs must resolve there
+REPO = os.environ.get('DYNETX_REPO', '/repo')
+sys.path.insert(0, REPO)
 
 from pyvc import check as chk            # noqa: E402
 
@@ -23,6 +26,8 @@ def _collect(results, tags):
 
 def check_property(pid, tier, seed):
     from contracts import registry
+    import dynetx
+    assert os.path.realpath(dynetx.__file__).startswith(os.path.realpath(REPO)), 'dynetx imported from %s, not from %s' % (dynetx.__file__, REPO)
     t0 = time.time()
     workers = int(os.environ.get('VERIF_WORKERS', '16' if tier == 'thorough' else '12'))
     timeout_ms = 30000 if tier == 'thorough' else 8000
